@@ -85,13 +85,13 @@ func modeCfgs(e *Env) []Cfg {
 	}
 	seen := map[string]bool{}
 	// six base configurations x three modes: one full-policy build first (its none build is where the
-	// manifests meet the full-policy profiles), three rotating distribution defaults, two of the seeded cover
+	// manifests meet the full-policy profiles), then the default of every distribution
 	q := quickCfgs(e.Seed)
 	bases := []Cfg{{"debian", 3, "3.0", "none", true}}
-	for i := 0; i < 3; i++ {
-		bases = append(bases, DefaultCfg(Dists[(int(e.Seed)+i)%len(Dists)]))
+	for _, d := range Dists {
+		bases = append(bases, DefaultCfg(d)) // every distribution: each has its own flags manifest
 	}
-	bases = append(bases, q[len(Dists):]...)
+	_ = q
 	for _, c := range bases {
 		for _, m := range []string{"none", "complain", "enforce"} {
 			c.Mode = m
